@@ -75,6 +75,28 @@ type tableCfg struct {
 	Rangers   int    `json:"rangers"`
 	DelayPerM int    `json:"delay_per_mille"`
 	Procs     int    `json:"gomaxprocs"` // 0 = all CPUs; the table's parallel copy splits the buckets by GOMAXPROCS
+	HashMode  int    `json:"hash_mode,omitempty"` // degraded key hashes (hook VerifSetHash), see hashModes
+}
+
+// hashModes degrade the key hash so that few keys give long bucket chains (the bucket index is
+// taken from hash>>7) and equal meta bytes (hash&0x7f) - collisions cannot be provoked through the
+// keys because every table seeds its own hash.
+var hashModes = []func(uint64) uint64{
+	nil,
+	func(h uint64) uint64 { return h&0x7f | (h>>7&3)<<7 },   // four root buckets: long chains
+	func(h uint64) uint64 { return h&^0x7f | h&1 },           // two meta bytes: every lookup compares keys
+	func(h uint64) uint64 { return h&1 | (h>>7&1)<<7 },       // both
+	func(h uint64) uint64 { return 0x2a },                    // one chain, one meta byte
+}
+
+var hashModeNames = []string{"seeded", "4 root buckets", "2 meta bytes", "2 root buckets x 2 meta bytes", "constant"}
+
+func setHashMode(mode int) {
+	if mode <= 0 || mode >= len(hashModes) {
+		otter.VerifSetHash(nil)
+		return
+	}
+	otter.VerifSetHash(hashModes[mode])
 }
 
 const (
@@ -84,6 +106,8 @@ const (
 
 func runTable(cfg tableCfg) (violation string, st map[string]int64, hist any) {
 	st = map[string]int64{}
+	setHashMode(cfg.HashMode)
+	defer otter.VerifSetHash(nil)
 	m := otter.VerifNewMap(cfg.InitCap)
 	otter.VerifSetHook(compHook(cfg.Seed, cfg.DelayPerM))
 	defer otter.VerifSetHook(nil)
@@ -327,9 +351,12 @@ func clearCheck(seed uint64) string {
 // keep the write buffer busy (it holds the eviction lock, so their events pile up and it falls back
 // to removing the remaining keys one by one). Every key that was present before the call and is
 // touched by nobody else must be gone when it returns, and must have been reported exactly once.
-func cacheClear(seed uint64) (violation string, cleared int64) {
+func cacheClear(seed uint64, longChains bool) (violation string, cleared int64) {
 	r := core.NewRng(seed)
 	stable := 5000 + r.Intn(40000)
+	if longChains { // degraded hash: every operation walks a chain that holds a large part of the keys
+		stable = 300 + r.Intn(1500)
+	}
 	counts := make([]atomic.Int32, stable)
 	o := &otter.Options[int, int]{
 		MaximumSize: 1 << 22,
@@ -767,6 +794,10 @@ func RunC15(col *core.Collector, tier, variant string, seed uint64, shard, nshar
 			DelayPerM: []int{0, 10, 50, 150}[r.Intn(4)],
 			Procs:     []int{0, 0, 2, 3, 5, 6, 7}[r.Intn(7)],
 		}
+		if r.Chance(2, 5) {
+			cfg.HashMode = 1 + r.Intn(len(hashModes)-1)
+			cfg.ChurnKeys = 20 + r.Intn(400) // chains are walked linearly
+		}
 		if cfg.Procs > 0 {
 			runtime.GOMAXPROCS(cfg.Procs)
 		} else {
@@ -777,6 +808,11 @@ func RunC15(col *core.Collector, tier, variant string, seed uint64, shard, nshar
 		}
 		wd.Arm()
 		v, st, hist := runTable(cfg)
+		col.Count("hash_mode."+hashModeNames[cfg.HashMode], 1)
+		if cfg.HashMode != 0 {
+			col.Max("max_chain_degraded_hash", st["max_chain"])
+		}
+		setHashMode(cfg.HashMode) // the cache-level checks of this trial run on the same kind of hash
 		if v == "" && i%10 == 0 {
 			v = clearCheck(cfg.Seed)
 			col.Count("clear_checks", 1)
@@ -788,7 +824,7 @@ func RunC15(col *core.Collector, tier, variant string, seed uint64, shard, nshar
 		}
 		if v == "" && i%8 == 3 {
 			var n int64
-			v, n = cacheClear(cfg.Seed ^ 0x99)
+			v, n = cacheClear(cfg.Seed^0x99, cfg.HashMode == 1 || cfg.HashMode >= 3)
 			col.Count("cache_level.clears_under_load", 1)
 			col.Count("cache_level.cleared_keys", n)
 		}
@@ -798,6 +834,7 @@ func RunC15(col *core.Collector, tier, variant string, seed uint64, shard, nshar
 			col.Count("cache_level.iterations", its)
 			col.Count("cache_level.yields", ys)
 		}
+		otter.VerifSetHash(nil)
 		wd.Disarm()
 		col.Eval(1)
 		for k, n := range st {
